@@ -2523,6 +2523,15 @@ impl<'a> Socket<'a> {
             // can't actually do anything.
             self.timer.set_for_idle(cx.now(), self.keep_alive);
 
+            // If the remote window is closed, nothing can be retransmitted right now, and
+            // no segment that would re-arm the retransmit timer is going to be sent below.
+            // Fall back to probing the window, or nothing would ever wake this socket up
+            // again although it still has unacknowledged data queued.
+            if self.remote_win_len == 0 && !self.tx_buffer.is_empty() {
+                let delay = self.rtte.retransmission_timeout();
+                self.timer.set_for_zero_window_probe(cx.now(), delay);
+            }
+
             // Inform RTTE, so that it can avoid bogus measurements.
             self.rtte.on_retransmit();
         }
